@@ -49,7 +49,9 @@ def run(chk):
                 nb[0] += 1; bk = "cr%05d" % nb[0]; key = "dir/obj"; path = "/%s/%s" % (bk, key)
                 R = client()
                 r_ = R.req("PUT", "/" + bk); chk.require(r_.status == 200, "c11:setup", "CreateBucket failed: %d %s %s alive=%s poll=%s log=%s trace=%s" % (r_.status, r_.code, getattr(r_, "error", ""), g.alive(), g.proc.poll(), g.log_tail(300), hk.trace()[-5:]) + " pid=%s ps=%s" % (g.proc.pid, os.popen("ps -eo pid,ppid,etimes,cmd | grep versitygw-verif | grep -v grep").read()))
-                if versioned:
+                # "-prever": the object under the key was stored before versioning was enabled (it is the null version)
+                prever = opname.endswith("-prever"); opname = opname[:-7] if prever else opname
+                if versioned and not prever:
                     R.req("PUT", "/" + bk, query={"versioning": ""}, body=b"<VersioningConfiguration><Status>Enabled</Status></VersioningConfiguration>")
                 old, new = 2 * wid, 2 * wid + 1
                 existing = not opname.endswith("-new")
@@ -57,7 +59,9 @@ def run(chk):
                 if existing:
                     r0_ = R.req("PUT", path, body=body_of(old), headers=write_headers(old))
                     chk.require(r0_.status == 200, "c11:setup", "initial PUT failed")
-                    old_vid = r0_.headers.get("x-amz-version-id")
+                    old_vid = r0_.headers.get("x-amz-version-id") or ("null" if prever else None)
+                if versioned and prever:
+                    R.req("PUT", "/" + bk, query={"versioning": ""}, body=b"<VersioningConfiguration><Status>Enabled</Status></VersioningConfiguration>")
                 uid = None
                 if opname.startswith("multipart") or opname.startswith("uploadpart"):
                     r0 = R.req("POST", path, query={"uploads": ""}, headers=write_headers(new)); uid = r0.xml().findtext("UploadId")
@@ -82,7 +86,7 @@ def run(chk):
                 if not crashed:
                     R.req("DELETE", path); return None
                 g.restart(); R = client()
-                row = {"config": label, "operation": opname, "killed_at": site_, "request_answer": r.status}
+                row = {"config": label, "operation": opname + ("-prever" if prever else ""), "killed_at": site_, "request_answer": r.status}
                 problems = []
                 # ---- (a) the key: complete previous or complete new state
                 if opname.startswith("uploadpart"):
@@ -115,7 +119,7 @@ def run(chk):
                         lv = R.req("GET", "/" + bk, query={"versions": "", "prefix": key})
                         ids = [x.findtext("VersionId") for x in list(lv.xml().findall("Version")) + list(lv.xml().findall("DeleteMarker"))] if lv.status == 200 and lv.xml() is not None else []
                         if len(ids) != len(set(ids)): problems.append("ListObjectVersions after the restart shows a version id twice: %r" % ids)
-                        if "null" in ids: problems.append("ListObjectVersions after the restart shows a null version although every write happened with versioning enabled: %r" % ids)
+                        if "null" in ids and not prever: problems.append("ListObjectVersions after the restart shows a null version although every write happened with versioning enabled: %r" % ids)
                         latest = [x.findtext("VersionId") for x in list(lv.xml().findall("Version")) + list(lv.xml().findall("DeleteMarker")) if x.findtext("IsLatest") == "true"] if lv.status == 200 and lv.xml() is not None else []
                         if ids and len(latest) != 1: problems.append("ListObjectVersions after the restart flags %d entries as latest" % len(latest))
                     if versioned and existing and old_vid:
@@ -184,7 +188,8 @@ def run(chk):
 
             wid = 0
             for opname, sites in (("put-new", PUT_SITES), ("put-overwrite", PUT_SITES), ("copy", PUT_SITES), ("multipart-new", CMU_SITES), ("multipart-overwrite", CMU_SITES),
-                                  ("uploadpart-new", PART_SITES), ("uploadpart-again", PART_SITES), ("delete", DEL_SITES)):
+                                  ("uploadpart-new", PART_SITES), ("uploadpart-again", PART_SITES), ("delete", DEL_SITES)) + (
+                                  (("put-overwrite-prever", PUT_SITES), ("multipart-overwrite-prever", CMU_SITES), ("delete-prever", DEL_SITES)) if versioned else ()):
                 for s_ in sites:
                     wid += 1
                     row = scenario(opname, s_, wid)
